@@ -188,7 +188,7 @@ def gen_texts(rng, tier):
 
 B64STD = "ABCDEFGHIJKLMNOPQRSTUVWXYZabcdefghijklmnopqrstuvwxyz0123456789+/"
 B64URL = B64STD[:62] + "-_"
-FILLERS = [" ", "\n", "\t", "\r", "\r\n", " ;c\n", ";\n", "; it is\n", "  "]
+FILLERS = [" ", "\n", "\t", "\r", "\r\n", " ;c\n", ";\n", "; it is\n", "  ", ";c\rA0\n", ";\r\n", ";;\"x\\\n", ";\u00a0=\n"]
 EXTRA_WS = ["\u00a0", "\x0b", "\x0c", "\u0085", "\u1680", "\u2000", "\u2003", "\u200a", "\u2028", "\u2029", "\u202f", "\u205f", "\u3000"]
 NOT_WS = ["\u200b", "\ufeff", "\x00", "\x1f", "\u180e"]
 
@@ -279,7 +279,8 @@ def gen_bytes(rng, tier):
             cls += "-notws"
         lits.append((K_B16, "h'" + h + "'", cls))
     lits += [(K_B16, "h'12 ;x'", "b16-open-comment"), (K_B16, "h'1 ;2\n2'", "b16-comment-digit"), (K_B16, "h'12;\u00a0\n34'", "b16-xws-in-comment"),
-             (K_B16, "h'12'34'", "b16-quote"), (K_B16, "h'\\u0031\\u0032'", "b16-escape"), (K_B64, "b64'YQ;=\n=='", "b64-pad-in-comment")]
+             (K_B16, "h'12 ;c\r34\n56'", "b16-cr-in-comment"), (K_B64, "b64'YQ ;c\rYQ\n=='", "b64-cr-in-comment"),
+             (K_B16, "h'12;34\r\n56'", "b16-crlf-comment"), (K_B16, "h'12'34'", "b16-quote"), (K_B16, "h'\\u0031\\u0032'", "b16-escape"), (K_B64, "b64'YQ;=\n=='", "b64-pad-in-comment")]
     # unprefixed byte strings
     atoms = ["a", "\u00e9", "\u20ac", "\U0001f600", "\"", " ", "\n", "\\\\", "\\'", "\\n", "\\u0041", "\\\"", "\\/", "\\x", ";", "\\u{1F600}"]
     for a in atoms:
@@ -334,47 +335,47 @@ def gen_floats(rng, tier):
 
 
 # ---------------------------------------------------------------------------
-# positions: document templates per kind.  {L} the literal, {M} the expected rendering of its stored value
+# positions: document templates per kind.  @L@ the literal, @M@ the expected rendering of its stored value
 # ---------------------------------------------------------------------------
-T_NUM = [("type", "a = {L}", "a = {M}"),
-         ("key-colon", "a = {{ {L}: int }}", "a = {{kv:{M} : n:int}}"),
-         ("key-arrow", "a = {{ {L} => int }}", "a = {{k1:{M} => n:int}}"),
-         ("key-cut", "a = {{ {L} ^ => int }}", "a = {{k1:{M} ^=> n:int}}"),
-         ("range-lo", "a = {L}..9", "a = <{M} .. U9>"),
-         ("range-hi", "a = 0..{L}", "a = <U0 .. {M}>"),
-         ("range-hi-excl", "a = 0...{L}", "a = <U0 ... {M}>"),
-         ("ctl-arg", "a = uint .size {L}", "a = <n:uint .size {M}>"),
-         ("ctl-arg-eq", "a = int .eq {L}", "a = <n:int .eq {M}>"),
-         ("array-elem", "a = [{L}, tstr]", "a = [{M}, n:tstr]"),
-         ("generic-arg", "a = b<{L}>", "a = n:b<|{M}|>"),
-         ("paren", "a = ({L})", "a = ({M})"),
-         ("choice", "a = tstr / {L}", "a = n:tstr/{M}"),
-         ("tag-content", "a = #6.1({L})", "a = #6.L1({M})"),
-         ("entry-type", "a = {{ x: {L} }}", "a = {{kb:x : {M}}}"),
-         ("group-rule", "g = (x: {L})", "g =g (kb:x : {M})")]
-T_TEXT = [("type", "a = {L}", "a = {M}"),
-          ("key-colon", "a = {{ {L}: int }}", "a = {{kv:{M} : n:int}}"),
-          ("key-arrow", "a = {{ {L} => int }}", "a = {{k1:{M} => n:int}}"),
-          ("ctl-arg", "a = tstr .eq {L}", "a = <n:tstr .eq {M}>"),
-          ("ctl-arg-default", "a = tstr .default {L}", "a = <n:tstr .default {M}>"),
-          ("array-elem", "a = [{L}, tstr]", "a = [{M}, n:tstr]"),
-          ("generic-arg", "a = b<{L}>", "a = n:b<|{M}|>"),
-          ("choice", "a = int / {L}", "a = n:int/{M}")]
-T_BYTES = [("type", "a = {L}", "a = {M}"),
-           ("key-arrow", "a = {{ {L} => int }}", "a = {{k1:{M} => n:int}}"),
-           ("ctl-arg", "a = bstr .eq {L}", "a = <n:bstr .eq {M}>"),
-           ("array-elem", "a = [{L}, tstr]", "a = [{M}, n:tstr]"),
-           ("generic-arg", "a = b<{L}>", "a = n:b<|{M}|>"),
-           ("choice", "a = int / {L}", "a = n:int/{M}")]
-T_OCC = [("occ-array", "a = [{L} int]", "a = [{M} n:int]"),
-         ("occ-map", "a = {{ {L} tstr => int }}", "a = {{{M} k1:n:tstr => n:int}}"),
-         ("occ-bareword", "a = {{ {L} x: int }}", "a = {{{M} kb:x : n:int}}"),
-         ("occ-group-rule", "g = ({L} int)", "g =g ({M} n:int)"),
-         ("occ-inline-group", "a = [{L} (int, tstr)]", "a = [{M} (n:int, n:tstr)]"),
-         ("occ-value", "a = [{L} 7]", "a = [{M} U7]")]
-T_TAG6 = [("tag6", "a = {L}(int)", "a = {M}(n:int)"), ("tag6-bare", "a = {L}", "a = {M}()"),
-          ("tag6-nested", "a = [{L}(tstr)]", "a = [{M}(n:tstr)]")]
-T_TAGN = [("major", "a = {L}", "a = {M}"), ("major-array", "a = [{L}, int]", "a = [{M}, n:int]")]
+T_NUM = [("type", "a = @L@", "a = @M@"),
+         ("key-colon", "a = { @L@: int }", "a = {kv:@M@ : n:int}"),
+         ("key-arrow", "a = { @L@ => int }", "a = {k1:@M@ => n:int}"),
+         ("key-cut", "a = { @L@ ^ => int }", "a = {k1:@M@ ^=> n:int}"),
+         ("range-lo", "a = @L@..9", "a = <@M@ .. U9>"),
+         ("range-hi", "a = 0..@L@", "a = <U0 .. @M@>"),
+         ("range-hi-excl", "a = 0...@L@", "a = <U0 ... @M@>"),
+         ("ctl-arg", "a = uint .size @L@", "a = <n:uint .size @M@>"),
+         ("ctl-arg-eq", "a = int .eq @L@", "a = <n:int .eq @M@>"),
+         ("array-elem", "a = [@L@, tstr]", "a = [@M@, n:tstr]"),
+         ("generic-arg", "a = b<@L@>", "a = n:b<|@M@|>"),
+         ("paren", "a = (@L@)", "a = (@M@)"),
+         ("choice", "a = tstr / @L@", "a = n:tstr/@M@"),
+         ("tag-content", "a = #6.1(@L@)", "a = #6.L1(@M@)"),
+         ("entry-type", "a = { x: @L@ }", "a = {kb:x : @M@}"),
+         ("group-rule", "g = (x: @L@)", "g =g (kb:x : @M@)")]
+T_TEXT = [("type", "a = @L@", "a = @M@"),
+          ("key-colon", "a = { @L@: int }", "a = {kv:@M@ : n:int}"),
+          ("key-arrow", "a = { @L@ => int }", "a = {k1:@M@ => n:int}"),
+          ("ctl-arg", "a = tstr .eq @L@", "a = <n:tstr .eq @M@>"),
+          ("ctl-arg-default", "a = tstr .default @L@", "a = <n:tstr .default @M@>"),
+          ("array-elem", "a = [@L@, tstr]", "a = [@M@, n:tstr]"),
+          ("generic-arg", "a = b<@L@>", "a = n:b<|@M@|>"),
+          ("choice", "a = int / @L@", "a = n:int/@M@")]
+T_BYTES = [("type", "a = @L@", "a = @M@"),
+           ("key-arrow", "a = { @L@ => int }", "a = {k1:@M@ => n:int}"),
+           ("ctl-arg", "a = bstr .eq @L@", "a = <n:bstr .eq @M@>"),
+           ("array-elem", "a = [@L@, tstr]", "a = [@M@, n:tstr]"),
+           ("generic-arg", "a = b<@L@>", "a = n:b<|@M@|>"),
+           ("choice", "a = int / @L@", "a = n:int/@M@")]
+T_OCC = [("occ-array", "a = [@L@ int]", "a = [@M@ n:int]"),
+         ("occ-map", "a = { @L@ tstr => int }", "a = {@M@ k1:n:tstr => n:int}"),
+         ("occ-bareword", "a = { @L@ x: int }", "a = {@M@ kb:x : n:int}"),
+         ("occ-group-rule", "g = (@L@ int)", "g =g (@M@ n:int)"),
+         ("occ-inline-group", "a = [@L@ (int, tstr)]", "a = [@M@ (n:int, n:tstr)]"),
+         ("occ-value", "a = [@L@ 7]", "a = [@M@ U7]")]
+T_TAG6 = [("tag6", "a = @L@(int)", "a = @M@(n:int)"), ("tag6-bare", "a = @L@", "a = @M@()"),
+          ("tag6-nested", "a = [@L@(tstr)]", "a = [@M@(n:tstr)]")]
+T_TAGN = [("major", "a = @L@", "a = @M@"), ("major-array", "a = [@L@, int]", "a = [@M@, n:int]")]
 TEMPLATES = {K_UINT: T_NUM, K_INT: T_NUM, K_FLOAT: T_NUM, K_HEXF: T_NUM, K_TEXT: T_TEXT, K_B16: T_BYTES, K_B64: T_BYTES,
              K_BUTF8: T_BYTES, K_OCC: T_OCC}
 
@@ -392,6 +393,12 @@ IDENT_RE = __import__("re").compile(r"^[A-Za-z@_](?:[-.]?[A-Za-z0-9@_$])*$")
 # findings
 # ---------------------------------------------------------------------------
 
+def is_extra_ws(c):
+    """Unicode White_Space that is not whitespace of the grammar (mirror of Render.extra_ws on one character; used only
+    to recognise a REPAIRED finding in the whitespace sweep)"""
+    return c in (0x0b, 0x0c, 0x85, 0xa0, 0x1680, 0x2028, 0x2029, 0x202f, 0x205f, 0x3000) or 0x2000 <= c <= 0x200a
+
+
 def finding_for(kind, f):
     """which open finding's class holds on this literal (by the Coq classifier flags of the oracle line)"""
     c = f.get("C", "")
@@ -408,6 +415,37 @@ def finding_for(kind, f):
     return None
 
 
+UINT_RE = __import__("re").compile(r"^(0[xX][0-9a-fA-F]+|0[bB][01]+|[1-9][0-9]*|0)$")
+NUMKIND = {"u": K_UINT, "i": K_INT, "f": K_FLOAT, "h": K_HEXF}
+NUMRULE = {"u": "Y uint_value", "i": "Y int_value", "f": "Y float_value", "h": "Y hexfloat", "-": "N"}
+
+
+def derived_literals(lits, raw, wide):
+    """occurrence indicators and tag heads built from uint spellings"""
+    out = []
+    small = [s for s, _ in raw if UINT_RE.match(s) and (len(s) <= 2 or (s[:2] in ("0x", "0X", "0b", "0B") and len(s) <= 4))]
+    chosen = small[:: (2 if wide else 9)] + [t for k, t, c in lits if k == K_UINT and c in ("boundary", "long")]
+    for o in ["?", "+", "*", "**", "3**", "*3*", "3*05", "03*5", "3 * 5", "3 *5", "3* 5", "-3*", "3*-5", "0x*", "*0x", "3*0b", "++", "?*", "3?", "3+"]:
+        out.append((K_OCC, o, "occ-fixed"))
+    for a in ["", "0", "1", "2", "10", "0x3", "0b11", "0X1f", "00", "01"]:
+        for b in ["", "0", "1", "5", "12", "0x5", "0B101", "00", "05"]:
+            out.append((K_OCC, a + "*" + b, "occ-enum"))
+    for u in dict.fromkeys(chosen):
+        for o in (u + "*", "*" + u, u + "*3", "3*" + u, u + "*" + u):
+            out.append((K_OCC, o, "occ-uint"))
+        for d in ("6", "7", "1", "0", "9"):
+            out.append((K_TAG, "#%s.%s" % (d, u), "tag-uint"))
+    for d in "0123456789":
+        out.append((K_TAG, "#" + d, "tag-bare"))
+    out += [(K_TAG, "#", "tag-bare"), (K_TAG, "#6.", "tag-bad"), (K_TAG, "#6.-1", "tag-bad"), (K_TAG, "#a.1", "tag-bad"), (K_TAG, "#6.1.2", "tag-bad"),
+            (K_TAG, "#66.1", "tag-bad"), (K_TAG, "#6.01", "tag-bad"), (K_TAG, "#6.0x", "tag-bad")]
+    return out
+
+
+FULL_POS_CLASSES = ("boundary", "long", "float-named", "hexfloat-named", "esc1", "pair", "pair-reversed", "brace-width", "occ-fixed",
+                    "occ-enum", "occ-uint", "tag-uint", "tag-bare", "utf8-1", "b16-pairs", "random")
+
+
 def run(tier, seed):
     res = Result(PROP, tier, seed)
     proved = common.prove(res, PROP, PROP_FILE, [EXTRACT])
@@ -416,90 +454,65 @@ def run(tier, seed):
     rng = random.Random(seed)
     wide = (tier != "quick") or not proved
     gtier = "thorough" if wide else "quick"
-
-    int_lits, raw = gen_ints(rng, gtier)
-    lits = int_lits + gen_texts(rng, gtier) + gen_bytes(rng, gtier) + gen_floats(rng, gtier)
-
-    # ---- enumerated raw strings: which `number` alternative (if any) takes the whole string ----
-    raw = list(dict.fromkeys(raw))
-    raw_or = [parse_fields(l) for l in common.run_tool(orc, [oracle_line(K_NUM, s) for s, _ in raw])]
-    raw_g = common.run_tool(drv, ["G\t%s\tnumber" % hx(s) for s, _ in raw])
-    kindmap = {"u": (K_UINT, "Y uint_value"), "i": (K_INT, "Y int_value"), "f": (K_FLOAT, "Y float_value"), "h": (K_HEXF, "Y hexfloat"), "-": (None, "N")}
-    evaluations = 0
-    hist, split = {}, {"accepted": 0, "rejected": 0}
-    grammar_checked = 0
-    for (s, cls), f, g in zip(raw, raw_or, raw_g):
-        k, want_g = kindmap[f["K"]]
-        grammar_checked += 1
-        if g != want_g:
-            res.violation("token grammar: pest rule `number` on %r gives %s, Coq recogniser says %s" % (s, g, want_g),
-                          {"cmd": "G", "kind": K_NUM, "token": s, "impl": g, "model": want_g})
-        if k is not None:
-            lits.append((k, s, cls))
-    # the strings no `number` alternative takes: parsed at top level they must be an identifier or an error
-    nonlit = [(s, cls) for (s, cls), f in zip(raw, raw_or) if f["K"] == "-"]
-    nl_impl = common.run_tool(drv, ["P\t" + hx("a = " + s) for s, _ in nonlit])
-    for (s, cls), out in zip(nonlit, nl_impl):
-        evaluations += 1
-        hist[cls + "/nonliteral"] = hist.get(cls + "/nonliteral", 0) + 1
-        want = "OK a = n:" + s if IDENT_RE.match(s) else "ERR"
-        split["accepted" if out.startswith("OK") else "rejected"] += 1
-        if out != want:
-            res.violation("`a = %s`: no number alternative admits %r, expected %s, implementation %s" % (s, s, want, out),
-                          {"cmd": "P", "doc": "a = " + s, "kind": K_NUM, "token": s, "impl": out, "model": want})
-
-    # ---- derived literals: occurrence indicators and tag heads built from uint spellings ----
-    uints = [t for k, t, _ in lits if k == K_UINT]
-    chosen = [t for t in dict.fromkeys(uints) if len(t) <= 2 or t.startswith(("0x", "0X", "0b", "0B")) and len(t) <= 4]
-    chosen = chosen[:: (7 if not wide else 2)] + [t for k, t, c in lits if k == K_UINT and c in ("boundary", "long")]
-    occ_fixed = ["?", "+", "*", "**", "3**", "*3*", "3*05", "03*5", "3 * 5", "3 *5", "3* 5", "-3*", "3*-5", "0x*", "*0x", "3*0b", "++", "?*", "3?", "3+"]
-    for o in occ_fixed:
-        lits.append((K_OCC, o, "occ-fixed"))
-    for a in ["", "0", "1", "2", "10", "0x3", "0b11", "0X1f"]:
-        for b in ["", "0", "1", "5", "12", "0x5", "0B101"]:
-            lits.append((K_OCC, a + "*" + b, "occ-enum"))
-    for u in dict.fromkeys(chosen):
-        for o in (u + "*", "*" + u, u + "*3", "3*" + u, u + "*" + u):
-            lits.append((K_OCC, o, "occ-uint"))
-        for d in ("6", "7", "1", "0", "9"):
-            lits.append((K_TAG, "#%s.%s" % (d, u), "tag-uint"))
-    for d in "0123456789":
-        lits.append((K_TAG, "#" + d, "tag-bare"))
-    lits += [(K_TAG, "#", "tag-bare"), (K_TAG, "#6.", "tag-bad"), (K_TAG, "#6.-1", "tag-bad"), (K_TAG, "#a.1", "tag-bad"), (K_TAG, "#6.1.2", "tag-bad"),
-             (K_TAG, "#66.1", "tag-bad"), (K_TAG, "#6.01", "tag-bad"), (K_TAG, "#6.0x", "tag-bad")]
-
-    # ---- evaluate every literal: model, specification, grammar, classes ----
-    lits = list(dict.fromkeys(lits))
-    lines = [oracle_line(k, t) for k, t, _ in lits]
-    orl = common.run_tool(orc, lines)
-    fields = [parse_fields(l) for l in orl]
-    gout = common.run_tool(drv, ["G\t%s\t%s" % (hx(t), PEST_RULE[k]) for k, t, _ in lits])
     known = {kf["id"]: kf for kf in common.known_findings(PROP)}
-    known_hits, unexplained = {}, 0
-    hexf_rejected_exact = 0
-    for (k, t, cls), f, g in zip(lits, fields, gout):
-        grammar_checked += 1
-        if (g.split(" ")[0] == "Y") != (f["G"] == "1"):
-            res.violation("token grammar: pest rule `%s` on %r gives %s, Coq recogniser says G=%s" % (PEST_RULE[k], t, g, f["G"]),
-                          {"cmd": "G", "kind": k, "token": t, "impl": g, "model": f["G"]})
-        if k in (K_FLOAT, K_HEXF):
-            continue
-        # model against specification (only where the grammar admits the spelling)
-        if f["G"] == "1" and f["V"] != f["S"]:
-            fid = finding_for(k, f)
-            if fid and fid in known:
-                known_hits[fid] = known_hits.get(fid, 0) + 1
-            else:
-                unexplained += 1
-                res.violation("%s literal %r: the code (model) stores %s, the RFC value is %s, and no open finding's class covers it"
-                              % (KIND_NAME[k], t, f["V"], f["S"]), {"cmd": "K", "kind": k, "token": t, "model": f["V"], "spec": f["S"]})
 
-    # ---- place every literal in its positions and read the stored value back from the real AST ----
-    docs = []   # (doc text, expected, literal index, position name)
-    full_pos_classes = ("boundary", "long", "float-named", "hexfloat-named", "esc1", "pair", "pair-reversed", "brace-width", "occ-fixed",
-                        "occ-enum", "occ-uint", "tag-uint", "tag-bare", "utf8-1", "b16-pairs", "random")
+    # ---- the cases ----
+    int_lits, raw = gen_ints(rng, gtier)
+    raw = list(dict.fromkeys(raw))
+    lits = int_lits + gen_texts(rng, gtier) + gen_bytes(rng, gtier) + gen_floats(rng, gtier)
+    lits += derived_literals(lits, raw, wide)
+    lits = list(dict.fromkeys(lits))
+    if wide:
+        cps = [c for c in range(0, 0x110000) if not 0xd800 <= c <= 0xdfff and c != 0x27]
+    else:
+        cps = [c for c in list(range(0, 0x3100)) + [0xfeff, 0xe000, 0x10000, 0x1f600, 0x10ffff] if c != 0x27]
+    ws_lits = [(K_B16, "h'12" + chr(c) + "34'", "ws-sweep") for c in cps]
+    wit = [(kf["witness"]["kind"], kf["witness"]["token"], "witness") for kf in known.values()]
+
+    # ---- one oracle batch: enumerated raw strings (kind 12: which `number` alternative takes the whole string, and
+    #      that kind's line), all literals, the whitespace sweep, the witnesses of the open findings ----
+    n_raw, n_lits, n_ws = len(raw), len(lits), len(ws_lits)
+    orl = common.run_tool(orc, [oracle_line(K_NUM, s) for s, _ in raw] + [oracle_line(k, t) for k, t, _ in lits + ws_lits + wit])
+    raw_f = [parse_fields(l) for l in orl[:n_raw]]
+    # raw strings that are number literals join the literals (with the fields of their kind), the others are checked
+    # as non-literals below
+    cases, fields, orlines = [], [], []          # (kind, token, class), oracle fields, oracle line
+    for (s, cls), f, l in zip(raw, raw_f, orl[:n_raw]):
+        if f["K"] != "-":
+            cases.append((NUMKIND[f["K"]], s, cls))
+            fields.append(f)
+            orlines.append(None)
+    seen = set((k, t) for k, t, _ in cases)
+    for c, l in zip(lits, orl[n_raw:n_raw + n_lits]):
+        if (c[0], c[1]) not in seen:
+            cases.append(c)
+            fields.append(parse_fields(l))
+            orlines.append(l)
+    ws_f = [parse_fields(l) for l in orl[n_raw + n_lits:n_raw + n_lits + n_ws]]
+    wit_f = [parse_fields(l) for l in orl[n_raw + n_lits + n_ws:]]
+    raw_field = {s: f for (s, _), f in zip(raw, raw_f)}
+
+    def as_entry(s):
+        """rendering of the string as one type (a number literal or a name), None when it is neither"""
+        f = raw_field.get(s)
+        if f is not None and f["K"] in ("u", "i") and f["M"] != "ERR":
+            return f["M"]
+        if f is not None and f["K"] == "f":
+            return float_expect(s)[0]
+        if f is not None and f["K"] == "-" and IDENT_RE.match(s):
+            return "n:" + s
+        return None
+
+    # ---- documents: every literal in its positions ----
+    docs = []   # (doc text, expected-format, model rendering or None, case index or None, position, class)
+    nonlit = [(s, cls) for (s, cls), f in zip(raw, raw_f) if f["K"] == "-"]
+    for s, cls in nonlit:
+        want = "OK a = n:" + s if IDENT_RE.match(s) else "ERR"
+        if s.startswith("+") and as_entry(s[1:]) is not None:
+            want = "OK a =g occ+ " + as_entry(s[1:])      # `a = +X` is the group rule a = (+ X): an occurrence, not a sign
+        docs.append(("a = " + s, None, want, None, "nonliteral", cls + "/nonliteral"))
     float_expected = {}
-    for i, ((k, t, cls), f) in enumerate(zip(lits, fields)):
+    for i, ((k, t, cls), f) in enumerate(zip(cases, fields)):
         if k == K_FLOAT:
             if f["G"] == "1":
                 m, fin = float_expect(t)
@@ -510,36 +523,90 @@ def run(tier, seed):
             m = None        # decided from the top-level document, see below
         else:
             m = f["M"] if f["G"] == "1" else "ERR"
-            if k in (K_B16, K_B64, K_BUTF8) and f["G"] == "0":
-                m = "ERR"
         tpls = templates_for(k, t)
-        everywhere = wide or cls in full_pos_classes or (i % 23 == 0)
-        use = tpls if everywhere else tpls[:1] + ([tpls[1 + (i % (len(tpls) - 1))]] if len(tpls) > 1 else [])
         if f["G"] == "0":
-            use = tpls[:1]          # spellings outside the token grammar: top level only, must be rejected
+            # spellings outside the token grammar: top level only, must be rejected - except where a shorter token
+            # followed by something else is a legitimate reading (occurrences re-tokenise inside a group, cddl.pest
+            # documents `01*02 t` = `0 (1*0) 2 t`; a ';' after a closing quote starts a comment): the grammar probe covers those
+            use = [] if (k == K_OCC or (k in (K_TEXT, K_B16, K_B64, K_BUTF8) and ";" in t)) else tpls[:1]
+        elif cls in FULL_POS_CLASSES or i % (4 if wide else 23) == 0:
+            use = tpls
+        elif len(tpls) > 1 and i % 2 == 0:
+            use = tpls[:1] + [tpls[1 + ((i // 2) % (len(tpls) - 1))]]
+        else:
+            use = tpls[:1]
         for name, dfmt, efmt in use:
-            docs.append((dfmt.replace("{{", "\0").replace("}}", "\1").replace("{L}", t).replace("\0", "{").replace("\1", "}"), (efmt, m), i, name))
-    impl = common.run_tool(drv, ["P\t" + hx(d) for d, _, _, _ in docs])
+            docs.append((dfmt.replace("@L@", t), efmt, m, i, name, cls))
+    for (k, t, cls), f in zip(ws_lits, ws_f):
+        docs.append(("a = " + t, "a = @M@", f["M"], None, "ws-sweep", cls))
+
+    # ---- one driver batch: grammar probes, documents, witnesses ----
+    glines = ["G\t%s\tnumber" % hx(s) for s, _ in raw] + ["G\t%s\t%s" % (hx(t), PEST_RULE[k]) for k, t, _ in cases]
+    plines = ["P\t" + hx(d[0]) for d in docs] + ["P\t" + hx(kf["witness"]["doc"]) for kf in known.values()]
+    dout = common.run_tool(drv, glines + plines)
+    g_raw, g_cases = dout[:n_raw], dout[n_raw:n_raw + len(cases)]
+    impl = dout[len(glines):len(glines) + len(docs)]
+    wit_impl = dout[len(glines) + len(docs):]
+
+    evaluations = 0
+    hist, pos_hist, split = {}, {}, {"accepted": 0, "rejected": 0}
+    known_hits = {}
+    # token grammar: Coq recognisers against the real pest rules
+    for (s, cls), f, g in zip(raw, raw_f, g_raw):
+        if g != NUMRULE[f["K"]]:
+            res.violation("token grammar: pest rule `number` on %r gives %s, Coq recogniser says %s" % (s, g, NUMRULE[f["K"]]),
+                          {"cmd": "G", "kind": K_NUM, "token": s, "impl": g, "model": NUMRULE[f["K"]]})
+    for (k, t, cls), f, g in zip(cases, fields, g_cases):
+        if (g.split(" ")[0] == "Y") != (f["G"] == "1"):
+            res.violation("token grammar: pest rule `%s` on %r gives %s, Coq recogniser says G=%s" % (PEST_RULE[k], t, g, f["G"]),
+                          {"cmd": "G", "kind": k, "token": t, "impl": g, "model": f["G"]})
+    grammar_checked = n_raw + len(cases)
+
+    # model against specification (where the grammar admits the spelling)
+    def model_vs_spec(k, t, f):
+        if f["G"] == "1" and f["V"] != f["S"]:
+            fid = finding_for(k, f)
+            if fid and fid in known:
+                known_hits[fid] = known_hits.get(fid, 0) + 1
+            else:
+                res.violation("%s literal %r: the code (model) stores %s, the RFC value is %s, and no open finding's class covers it"
+                              % (KIND_NAME[k], t, f["V"], f["S"]), {"cmd": "K", "kind": k, "token": t, "model": f["V"], "spec": f["S"]})
+    for (k, t, cls), f in zip(cases, fields):
+        if k not in (K_FLOAT, K_HEXF):
+            model_vs_spec(k, t, f)
+    for (k, t, cls), f in zip(ws_lits, ws_f):
+        model_vs_spec(k, t, f)
+
+    # implementation against model, document by document
     top_result = {}
-    for (d, (efmt, m), i, name), out in zip(docs, impl):
-        k, t, cls = lits[i]
-        if name in ("type", "occ-array", "tag6", "major"):
+    for (d, efmt, m, i, name, cls), out in zip(docs, impl):
+        if i is not None and name in ("type", "occ-array", "tag6", "major"):
             top_result[i] = out
-    samples = []
-    pos_hist = {}
-    nontrivial = set()
-    for (d, (efmt, m), i, name), out in zip(docs, impl):
-        k, t, cls = lits[i]
-        f = fields[i]
+    samples, nontrivial = [], set()
+    hexf_rejected_exact = 0
+    repaired = {}
+    for n, ((d, efmt, m, i, name, cls), out) in enumerate(zip(docs, impl)):
         evaluations += 1
         hist[cls] = hist.get(cls, 0) + 1
         pos_hist[name] = pos_hist.get(name, 0) + 1
         split["accepted" if out.startswith("OK") else "rejected"] += 1
+        if i is None:
+            want = m if efmt is None else ("ERR" if m == "ERR" else "OK " + efmt.replace("@M@", m))
+            if out != want and name == "ws-sweep" and out == "ERR" and "kf-c07-bytes-nongrammar-ws" in known \
+                    and is_extra_ws(ord(d[8])):
+                repaired["kf-c07-bytes-nongrammar-ws"] = repaired.get("kf-c07-bytes-nongrammar-ws", 0) + 1
+                continue
+            if out != want:
+                res.violation("`%s` (%s): implementation %s, model %s" % (d, cls, out, want),
+                              {"cmd": "P", "doc": d, "impl": out, "model": want})
+            continue
+        k, t, _ = cases[i]
+        f = fields[i]
         if len(t) > 1:
             nontrivial.add((k, t, name))
         if k == K_HEXF:
             # hexf-parse is not modelled: an accepted hexfloat must hold EXACTLY its value; rejection is allowed only
-            # for values that are not exactly representable (noted when hexf-parse rejects a representable one)
+            # for values that are not exactly representable (counted when hexf-parse rejects a representable one)
             exact = hexfloat_exact(t) if f["G"] == "1" else None
             top = top_result.get(i, "ERR")
             if name == "type":
@@ -553,7 +620,15 @@ def run(tier, seed):
             m = top[len("OK a = "):] if top.startswith("OK a = ") else "ERR"
         elif k in (K_B16, K_B64, K_BUTF8) and name == "key-colon":
             m = "ERR"
-        want = "ERR" if m == "ERR" else "OK " + efmt.replace("{{", "\0").replace("}}", "\1").replace("{M}", m).replace("\0", "{").replace("\1", "}")
+        want = "ERR" if m == "ERR" else "OK " + efmt.replace("@M@", m)
+        if out != want and k not in (K_FLOAT, K_HEXF) and f["G"] == "1" and f["V"] != f["S"] and finding_for(k, f) in known \
+                and out == ("ERR" if f["S"] in ("ERR", "NONE") else "OK " + efmt.replace("@M@", f["S"])):
+            # inside the class of an open finding the implementation now gives the RFC answer: the defect was repaired
+            repaired[finding_for(k, f)] = repaired.get(finding_for(k, f), 0) + 1
+            continue
+        if out != want and k == K_FLOAT and out == "ERR" and f["C"] == "1":
+            repaired["kf-c07-float-overflow-inf"] = repaired.get("kf-c07-float-overflow-inf", 0) + 1
+            continue
         if out != want:
             res.violation("%s literal %r in position %s (`%s`): implementation %s, model %s" % (KIND_NAME[k], t, name, d, out, want),
                           {"cmd": "P", "doc": d, "kind": k, "token": t, "position": name, "impl": out, "model": want})
@@ -564,60 +639,37 @@ def run(tier, seed):
             else:
                 res.violation("float literal %r stored as a non-finite value %s and no open finding covers it" % (t, out),
                               {"cmd": "P", "doc": d, "kind": k, "token": t, "impl": out, "model": want})
-        if k == K_FLOAT and i in float_expected and name == "type":
+        if k == K_FLOAT and i in float_expected and name == "type" and (f["M"] == "FIN") != float_expected[i][1]:
             # Coq's class (finite / infinite) against the independent conversion
-            if (f["M"] == "FIN") != float_expected[i][1]:
-                res.violation("float literal %r: Coq overflow test says %s, correctly rounded value is %s" % (t, f["M"], float_expected[i][0]),
-                              {"cmd": "K", "kind": k, "token": t, "model": f["M"], "spec": float_expected[i][0]})
-        if len(samples) < 8 and i % 997 == 3:
+            res.violation("float literal %r: Coq overflow test says %s, correctly rounded value is %s" % (t, f["M"], float_expected[i][0]),
+                          {"cmd": "K", "kind": k, "token": t, "model": f["M"], "spec": float_expected[i][0]})
+        if len(samples) < 8 and n % 9973 == 3:
             samples.append({"kind": KIND_NAME[k], "token": t, "position": name, "doc": d, "impl": out})
 
-    # ---- sweep of char::is_whitespace inside h'..': every code point (a slice in quick) ----
-    cps = list(range(0, 0x3100)) + [0xfeff, 0xe000, 0x10000, 0x1f600, 0x10ffff] if not wide else \
-        [c for c in range(0, 0x110000) if not 0xd800 <= c <= 0xdfff]
-    cps = [c for c in cps if c != 0x27]
-    ws_lits = [(K_B16, "h'12" + chr(c) + "34'", "ws-sweep") for c in cps]
-    ws_or = [parse_fields(l) for l in common.run_tool(orc, [oracle_line(k, t) for k, t, _ in ws_lits])]
-    ws_impl = common.run_tool(drv, ["P\t" + hx("a = " + t) for _, t, _ in ws_lits])
-    for (k, t, cls), f, out in zip(ws_lits, ws_or, ws_impl):
-        evaluations += 1
-        hist[cls] = hist.get(cls, 0) + 1
-        split["accepted" if out.startswith("OK") else "rejected"] += 1
-        want = "ERR" if f["M"] == "ERR" else "OK a = " + f["M"]
-        if out != want:
-            res.violation("h'..' with U+%04X inside: implementation %s, model %s" % (ord(t[4]), out, want),
-                          {"cmd": "P", "doc": "a = " + t, "kind": k, "token": t, "impl": out, "model": want})
-        if f["V"] != f["S"]:
-            fid = finding_for(k, f)
-            if fid and fid in known:
-                known_hits[fid] = known_hits.get(fid, 0) + 1
-            else:
-                res.violation("h'..' with U+%04X inside: model %s, RFC %s, no open finding covers it" % (ord(t[4]), f["V"], f["S"]),
-                              {"cmd": "K", "kind": k, "token": t, "model": f["V"], "spec": f["S"]})
-
     # ---- open findings: replay each witness; KNOWN-FINDING only while it still fails ----
-    for fid, kf in known.items():
+    for kf, f, out in zip(known.values(), wit_f, wit_impl):
         w = kf["witness"]
-        out = common.run_tool(drv, ["P\t" + hx(w["doc"])])[0]
-        f = parse_fields(common.run_tool(orc, [oracle_line(w["kind"], w["token"])])[0])
-        still = out == w["impl"] and finding_for(w["kind"], f) == fid and (w["kind"] == K_FLOAT or f["V"] != f["S"])
+        still = out == w["impl"] and finding_for(w["kind"], f) == kf["id"] and (w["kind"] == K_FLOAT or f["V"] != f["S"])
         if still:
             res.known(kf)
         else:
-            res.notes.append("finding %s apparently repaired: `%s` -> %s (was %s)" % (fid, w["doc"], out, w["impl"]))
+            res.notes.append("finding %s apparently repaired: `%s` -> %s (was %s)" % (kf["id"], w["doc"], out, w["impl"]))
+
+    for fid, n in repaired.items():
+        res.notes.append("finding %s: %d cases of its class now get the RFC answer from the implementation (repaired?)" % (fid, n))
 
     # ---- vm_compute slice: the extracted oracle computes what Coq computes ----
-    small = [i for i, (k, t, _) in enumerate(lits) if len(t) <= 40]
-    sl = rng.sample(small, min(150, len(small)))
-    vm = common.vm_compute_slice(PROP, VM_PREAMBLE, ["lit_eval %d %s" % (lits[i][0], common.coq_list([ord(c) for c in lits[i][1]])) for i in sl])
-    vm_bad = [(lits[i][1], x, orl[i]) for i, x in zip(sl, vm) if x != orl[i]]
+    small = [i for i, (k, t, _) in enumerate(cases) if len(t) <= 24 and orlines[i] is not None]
+    sl = rng.sample(small, min(120, len(small)))
+    vm = common.vm_compute_slice(PROP, VM_PREAMBLE, ["lit_eval %d %s" % (cases[i][0], common.coq_list([ord(c) for c in cases[i][1]])) for i in sl])
+    vm_bad = [(cases[i][1], x, orlines[i]) for i, x in zip(sl, vm) if x != orlines[i]]
     if vm_bad:
         res.violation("extracted oracle and vm_compute disagree on %r: %s vs %s" % vm_bad[0], {"kind": "extraction", "case": list(vm_bad[0])}, no_input=True)
     if not proved and not res.violations:
         res.violation(res.proof_broken, {"kind": "proof-obligation", "detail": res.proof_broken}, no_input=True)
 
     kinds_hist = {}
-    for k, _, _ in lits:
+    for k, _, _ in cases:
         kinds_hist[KIND_NAME[k]] = kinds_hist.get(KIND_NAME[k], 0) + 1
     res.coverage.update({
         "evaluations": evaluations,
@@ -634,7 +686,7 @@ def run(tier, seed):
                              "pairs of %d escape forms" % len(ESC_ATOMS), "base64 <= %d chars over 11 characters" % (5 if wide else 4),
                              "base64 symbol pairs (66 x 66)", "base16 <= 5 chars over 7 characters", "base16 digit pairs (24 x 24)",
                              "h'12<c>34' for every code point c %s" % ("" if wide else "< U+3100")],
-        "literals": len(lits), "literal_kinds": kinds_hist, "documents": len(docs),
+        "literals": len(cases) + len(ws_lits), "literal_kinds": kinds_hist, "documents": len(docs),
         "class_histogram": hist, "position_histogram": pos_hist, "verdict_split": split,
         "token_grammar_probes": grammar_checked,
         "model_vs_spec_in_finding_classes": known_hits,
